@@ -226,6 +226,7 @@ class C08(Check):
 
     def bound(self, tier, case):
         if tier == 'quick': return 1
+        if case.get('first') or case.get('itemkind') or case.get('fan') == 'raise-mid': return 1      # two calls / long executions: the schedule tree at bound 2 does not fit the budget
         heavy = case['n'] * max(case['items'], 1)
         return 2 if heavy <= 4 else 1
 
